@@ -1,0 +1,313 @@
+//! Seams for the deterministic simulation harness. Only compiled with the
+//! `verif` feature. All state is thread local and inert until a harness
+//! installs something, so enabling the feature alone changes no behaviour.
+
+use std::cell::Cell;
+
+/// What the harness wants to happen after an allocation
+#[derive(Clone, Copy, Debug, PartialEq, Eq)]
+pub enum GcDecision {
+  /// Leave the decision to the allocator's own byte threshold
+  Native,
+
+  /// Do not collect
+  Skip,
+
+  /// Collect and sweep only the nursery
+  Nursery,
+
+  /// Collect and sweep both heaps
+  Full,
+
+  /// Collect and sweep both heaps twice in a row
+  FullTwice,
+}
+
+/// How a sweep of the object heap should be performed
+#[derive(Clone, Copy, Debug, PartialEq, Eq)]
+pub enum SweepMode {
+  /// Use the allocator's own every tenth collection rule
+  Native,
+  Nursery,
+  Full,
+}
+
+/// The number of reach probes
+pub const PROBE_COUNT: usize = 48;
+
+thread_local! {
+  static MANAGED_DEPTH: Cell<u32> = const { Cell::new(0) };
+  static ALLOC_INDEX: Cell<u64> = const { Cell::new(0) };
+  static GC_DECIDER: Cell<Option<fn(u64, usize) -> GcDecision>> = const { Cell::new(None) };
+  static SWEEP_MODE: Cell<SweepMode> = const { Cell::new(SweepMode::Native) };
+  static INITIAL_THRESHOLD: Cell<Option<usize>> = const { Cell::new(None) };
+  static COLLECTED: Cell<Option<fn(bool)>> = const { Cell::new(None) };
+  static QUIESCENT_PENDING: Cell<bool> = const { Cell::new(false) };
+  static FORCE_CACHE_MISS: Cell<bool> = const { Cell::new(false) };
+  static TICKS: Cell<u64> = const { Cell::new(0) };
+  static TICK_BUDGET: Cell<u64> = const { Cell::new(u64::MAX) };
+  static CORRUPT: Cell<Option<fn(*const u8, u8)>> = const { Cell::new(None) };
+  static PROBES: [Cell<u64>; PROBE_COUNT] = const { [const { Cell::new(0) }; PROBE_COUNT] };
+}
+
+/// A scope during which allocations made through the global allocator
+/// are allocations of managed objects
+pub struct ManagedAlloc(());
+
+impl ManagedAlloc {
+  #[inline]
+  pub fn enter() -> Self {
+    MANAGED_DEPTH.with(|depth| depth.set(depth.get() + 1));
+    Self(())
+  }
+}
+
+impl Drop for ManagedAlloc {
+  #[inline]
+  fn drop(&mut self) {
+    MANAGED_DEPTH.with(|depth| depth.set(depth.get() - 1));
+  }
+}
+
+/// Is the current allocation one of a managed object
+#[inline]
+pub fn managed_alloc_active() -> bool {
+  MANAGED_DEPTH.with(|depth| depth.get() > 0)
+}
+
+/// Reset every seam to its inert state
+pub fn reset() {
+  MANAGED_DEPTH.with(|v| v.set(0));
+  ALLOC_INDEX.with(|v| v.set(0));
+  GC_DECIDER.with(|v| v.set(None));
+  SWEEP_MODE.with(|v| v.set(SweepMode::Native));
+  INITIAL_THRESHOLD.with(|v| v.set(None));
+  COLLECTED.with(|v| v.set(None));
+  QUIESCENT_PENDING.with(|v| v.set(false));
+  FORCE_CACHE_MISS.with(|v| v.set(false));
+  TICKS.with(|v| v.set(0));
+  TICK_BUDGET.with(|v| v.set(u64::MAX));
+  CORRUPT.with(|v| v.set(None));
+  PROBES.with(|probes| probes.iter().for_each(|probe| probe.set(0)));
+}
+
+/// Install the function deciding if a collection follows an allocation
+pub fn set_gc_decider(decider: Option<fn(u64, usize) -> GcDecision>) {
+  GC_DECIDER.with(|v| v.set(decider));
+}
+
+/// How many managed allocations have been made since the last reset
+pub fn alloc_index() -> u64 {
+  ALLOC_INDEX.with(|v| v.get())
+}
+
+/// Called by the allocator after each managed allocation
+#[inline]
+pub fn gc_decision(bytes_allocated: usize) -> GcDecision {
+  let index = ALLOC_INDEX.with(|v| {
+    let index = v.get();
+    v.set(index + 1);
+    index
+  });
+
+  match GC_DECIDER.with(|v| v.get()) {
+    Some(decider) => decider(index, bytes_allocated),
+    None => GcDecision::Native,
+  }
+}
+
+/// Set the threshold the next allocator's byte threshold starts from
+pub fn set_initial_threshold(threshold: Option<usize>) {
+  INITIAL_THRESHOLD.with(|v| v.set(threshold));
+}
+
+/// Take the initial byte threshold if one is pending
+#[inline]
+pub fn take_initial_threshold() -> Option<usize> {
+  INITIAL_THRESHOLD.with(|v| v.take())
+}
+
+/// Set how the next sweeps should be performed
+pub fn set_sweep_mode(mode: SweepMode) {
+  SWEEP_MODE.with(|v| v.set(mode));
+}
+
+/// How should the current sweep be performed
+#[inline]
+pub fn sweep_mode() -> SweepMode {
+  SWEEP_MODE.with(|v| v.get())
+}
+
+/// Install a function called at the end of every collection with
+/// whether both heaps were swept
+pub fn set_collected(collected: Option<fn(bool)>) {
+  COLLECTED.with(|v| v.set(collected));
+}
+
+/// Called by the allocator when a collection has finished
+pub fn collected(full: bool) {
+  QUIESCENT_PENDING.with(|v| v.set(true));
+  if let Some(collected) = COLLECTED.with(|v| v.get()) {
+    collected(full)
+  }
+}
+
+/// Has a collection finished since this was last asked. The allocator
+/// asks at the entry of the next allocation, the first point at which the
+/// object that triggered the collection has been published
+#[inline]
+pub fn take_quiescent_pending() -> bool {
+  QUIESCENT_PENDING.with(|v| v.replace(false))
+}
+
+/// Force every inline cache lookup to miss
+pub fn set_force_cache_miss(force: bool) {
+  FORCE_CACHE_MISS.with(|v| v.set(force));
+}
+
+/// Should every inline cache lookup miss
+#[inline]
+pub fn force_cache_miss() -> bool {
+  FORCE_CACHE_MISS.with(|v| v.get())
+}
+
+/// Panic payload raised when the instruction budget is exhausted
+#[derive(Debug)]
+pub struct StepBudgetExhausted(pub u64);
+
+/// Set the number of instructions the interpreter may execute
+pub fn set_tick_budget(budget: u64) {
+  TICK_BUDGET.with(|v| v.set(budget));
+}
+
+/// How many instructions have been executed since the last reset
+pub fn ticks() -> u64 {
+  TICKS.with(|v| v.get())
+}
+
+/// Called by the interpreter before each instruction
+#[inline]
+pub fn tick() {
+  let ticks = TICKS.with(|v| {
+    let ticks = v.get() + 1;
+    v.set(ticks);
+    ticks
+  });
+
+  if ticks > TICK_BUDGET.with(|v| v.get()) {
+    TICK_BUDGET.with(|v| v.set(u64::MAX));
+    std::panic::panic_any(StepBudgetExhausted(ticks));
+  }
+}
+
+/// Panic payload raised when a header holds bytes no live object can hold
+#[derive(Debug)]
+pub struct CorruptHeader {
+  pub address: usize,
+  pub byte: u8,
+}
+
+/// Install a function called when a corrupt header is found
+pub fn set_corrupt(corrupt: Option<fn(*const u8, u8)>) {
+  CORRUPT.with(|v| v.set(corrupt));
+}
+
+/// Report a header byte that no live object can hold
+#[cold]
+pub fn corrupt(address: *const u8, byte: u8) -> ! {
+  if let Some(corrupt) = CORRUPT.with(|v| v.get()) {
+    corrupt(address, byte)
+  }
+  std::panic::panic_any(CorruptHeader {
+    address: address as usize,
+    byte,
+  });
+}
+
+/// Check a header's mark byte
+#[inline]
+pub fn check_mark_byte(address: *const u8) {
+  let byte = unsafe { std::ptr::read_volatile(address) };
+  if byte > 1 {
+    corrupt(address, byte)
+  }
+}
+
+/// Record that a rarely taken branch was reached
+#[inline]
+pub fn probe(id: usize) {
+  PROBES.with(|probes| probes[id].set(probes[id].get() + 1));
+}
+
+/// Read a reach probe
+pub fn probe_count(id: usize) -> u64 {
+  PROBES.with(|probes| probes[id].get())
+}
+
+pub mod probes {
+  pub const GC_NURSERY: usize = 0;
+  pub const GC_FULL: usize = 1;
+  pub const INTERN_HIT: usize = 2;
+  pub const INTERN_INSERT: usize = 3;
+  pub const INTERN_EVICT: usize = 4;
+  pub const LIST_FORWARDED: usize = 5;
+  pub const CACHE_PROPERTY_HIT: usize = 6;
+  pub const CACHE_PROPERTY_MISS: usize = 7;
+  pub const CACHE_INVOKE_HIT: usize = 8;
+  pub const CACHE_INVOKE_MISS: usize = 9;
+  pub const FIBER_BLOCK: usize = 10;
+  pub const FIBER_SLEEP: usize = 11;
+  pub const FIBER_UNBLOCK: usize = 12;
+  pub const FIBER_COMPLETE: usize = 13;
+  pub const FIBER_QUEUE_IGNORED: usize = 14;
+  pub const IMPORT_COMPILED: usize = 15;
+  pub const IMPORT_LOADED: usize = 16;
+  pub const IMPORT_CACHED: usize = 17;
+  pub const UNWIND_HANDLED: usize = 18;
+  pub const UNWIND_STOPPED_AT_NATIVE: usize = 19;
+  pub const UNWIND_UNHANDLED: usize = 20;
+  pub const SCAN_ROOTS: usize = 21;
+  pub const STACK_GROWN: usize = 22;
+  pub const CONTEXT_SWITCH: usize = 23;
+  pub const DEADLOCK: usize = 24;
+  pub const LAUNCH: usize = 25;
+  pub const NATIVE_ERROR_ROOTS_DISCARDED: usize = 26;
+  pub const CACHE_CLEARED: usize = 27;
+  pub const HANDLER_PUSH: usize = 28;
+  pub const HANDLER_POP: usize = 29;
+  pub const IMPORT_WAKE_REFUSED: usize = 30;
+
+  pub const NAMES: [&str; 31] = [
+    "gc_nursery",
+    "gc_full",
+    "intern_hit",
+    "intern_insert",
+    "intern_evict",
+    "list_forwarded",
+    "cache_property_hit",
+    "cache_property_miss",
+    "cache_invoke_hit",
+    "cache_invoke_miss",
+    "fiber_block",
+    "fiber_sleep",
+    "fiber_unblock",
+    "fiber_complete",
+    "fiber_queue_ignored",
+    "import_compiled",
+    "import_loaded",
+    "import_cached",
+    "unwind_handled",
+    "unwind_stopped_at_native",
+    "unwind_unhandled",
+    "scan_roots",
+    "stack_grown",
+    "context_switch",
+    "deadlock",
+    "launch",
+    "native_error_roots_discarded",
+    "cache_cleared",
+    "handler_push",
+    "handler_pop",
+    "import_wake_refused",
+  ];
+}
